@@ -64,6 +64,7 @@ type Exec struct {
 	curG       int         // goroutine currently executed by the scheduler (+1), 0 = harness main
 	protected  map[int]int // object id -> sync cell of the mutex that must be held to touch it
 	LedDevice, LedCapture, LedCancel Value
+	lastClock                        *smt.Term
 	ufMemo     map[string][]Value
 	DecodeFailKind *smt.Term
 	DecodedList    []decodedReg // values registered by verifrt.TOMLToken
